@@ -78,11 +78,13 @@ Section PyProofs.
         intro X; subst. rewrite bytes_eqb_refl in E. discriminate.
   Qed.
 
-  Lemma get_fold_del ks : forall (h : hd) k,
-    get k (fold_left (fun h k => del k h) ks h) = if existsb (bytes_eqb k) ks then None else get k h.
+  Lemma get_strip (h : hd) k : get k (strip_reserved pyval h) = if is_stripped k then None else get k h.
   Proof.
-    induction ks as [|k0 t IH]; intros h k; simpl; [reflexivity|].
-    rewrite IH, get_del. destruct (bytes_eqb k k0), (existsb (bytes_eqb k) t); reflexivity.
+    induction h as [|[k' v'] t IH]; simpl.
+    - destruct (is_stripped k); reflexivity.
+    - destruct (is_stripped k') eqn:S'.
+      + rewrite IH. beq k k'; [subst k'; rewrite S'; reflexivity | reflexivity].
+      + simpl. beq k k'; [subst k'; rewrite S'; reflexivity | exact IH].
   Qed.
 
   Lemma in_keys_get k (h : hd) : In k (keys pyval h) <-> get k h <> None.
@@ -97,9 +99,9 @@ Section PyProofs.
 
   (* ---------------------------------------------------------------- _make_header *)
   Lemma reserved_split k : reserved k = false ->
-    existsb (bytes_eqb k) deleted_keys = false /\ k <> B "_DTYPE" /\ k <> B "_VERSION".
+    is_stripped k = false /\ k <> B "_DTYPE" /\ k <> B "_VERSION".
   Proof.
-    unfold reserved, reserved_keys. rewrite existsb_app. intro H.
+    unfold reserved. intro H.
     apply orb_false_iff in H as [H1 H2]. split; [exact H1|]. simpl in H2.
     apply orb_false_iff in H2 as [H2 H3]. apply orb_false_iff in H3 as [H3 _].
     split; apply bytes_eqb_false; assumption.
@@ -109,7 +111,7 @@ Section PyProofs.
   Proof.
     intro R. destruct (reserved_split k R) as [D [N1 N2]]. unfold make_header.
     rewrite get_put_other by exact N2. rewrite get_put_other by exact N1.
-    rewrite get_fold_del, D. reflexivity.
+    rewrite get_strip, D. reflexivity.
   Qed.
 
   Lemma head_dtype hdr dt : get (B "_DTYPE") (mkh hdr dt) = Some (v_descr dt).
@@ -122,14 +124,14 @@ Section PyProofs.
 
   Lemma head_key_cases hdr dt k : get k (mkh hdr dt) <> None ->
     k = B "_VERSION" \/ k = B "_DTYPE"
-    \/ (existsb (bytes_eqb k) deleted_keys = false /\ In k (keys pyval hdr)).
+    \/ (is_stripped k = false /\ In k (keys pyval hdr)).
   Proof.
     intro H. beq k (B "_VERSION"); [left; exact E|]. right.
     beq k (B "_DTYPE"); [left; exact E0|]. right.
     unfold make_header in H.
     rewrite get_put_other in H by (apply bytes_eqb_false; exact E).
     rewrite get_put_other in H by (apply bytes_eqb_false; exact E0).
-    rewrite get_fold_del in H. destruct (existsb (bytes_eqb k) deleted_keys); [contradiction|].
+    rewrite get_strip in H. destruct (is_stripped k); [contradiction|].
     split; [reflexivity | apply in_keys_get; exact H].
   Qed.
 
@@ -181,7 +183,7 @@ Section PyProofs.
     dict_equiv pyval pyeq h' (mkh hdr dt) -> user_hdr_ok pyval hdr ->
     In k (keys pyval (put (B "_SIZE") (v_int n) h')) ->
     k = B "_SIZE" \/ k = B "_VERSION" \/ k = B "_DTYPE"
-    \/ (existsb (bytes_eqb k) deleted_keys = false /\ user_key_ok k = true).
+    \/ (is_stripped k = false /\ user_key_ok k = true).
   Proof.
     intros Q U I. beq k (B "_SIZE"); [left; exact E|]. right.
     apply in_keys_get in I. rewrite get_put_other in I by (apply bytes_eqb_false; exact E).
@@ -197,10 +199,8 @@ Section PyProofs.
     intros Q U. apply match_key_none. intros k I.
     destruct (final_key_cases hdr dt h' n k Q U I) as [->|[->|[->|[D K]]]]; try reflexivity.
     change (lower (B "_delim")) with (B "_delim").
-    unfold user_key_ok in K. apply andb_true_iff in K as [K _].
-    unfold deleted_keys in D. simpl existsb in D.
-    repeat (let X := fresh "X" in apply orb_false_iff in D as [X D]).
-    rewrite X3, X4 in K. rewrite !orb_false_r in K. apply negb_true_iff in K. exact K.
+    unfold is_stripped, reserved_lower in D. simpl existsb in D.
+    repeat (let X := fresh "X" in apply orb_false_iff in D as [X D]). exact X1.
   Qed.
 
   Lemma dtype_key hdr dt h' n :
@@ -213,7 +213,7 @@ Section PyProofs.
     - intros k I L.
       destruct (final_key_cases hdr dt h' n k Q U I) as [->|[->|[->|[D K]]]]; try discriminate; [reflexivity|].
       change (lower (B "_dtype")) with (B "_dtype") in L.
-      unfold user_key_ok in K. apply andb_true_iff in K as [_ K]. rewrite L in K. simpl in K.
+      unfold user_key_ok in K. rewrite L in K. simpl in K.
       apply bytes_eqb_eq. exact K.
   Qed.
 
